@@ -389,6 +389,7 @@ func main() {
 	results = append(results, runAll(r, defs, 16)...)
 
 	space.Summarize(r, results)
+	sparseMid(r)
 	r.Cov("sparse_to_dense_conversions_executed_incl_replays", atomic.LoadInt64(&cConversions))
 	r.Cov("removals_of_the_last_value_of_a_bucket_executed_incl_replays", atomic.LoadInt64(&cBucketsRemoved))
 	r.Cov("battery_runs_on_states_with_a_dense_bucket", atomic.LoadInt64(&cDenseStates))
